@@ -33,6 +33,8 @@ type MsgInfo struct {
 	To     []int
 	ToOld  bool
 	ToBoth bool
+	Unresolved, RawToLen int
+	Raw    tss.Message
 }
 
 func msgID(m *netrun.Msg) string {
@@ -85,6 +87,9 @@ type LState struct {
 type Sys struct {
 	Mk      func() *netrun.Network
 	N       int
+	// RefIDs identifies messages by (sender, type, emission index) instead of by content: needed when
+	// message values are not reproducible between replays (ECDSA signing draws randomness concurrently).
+	RefIDs bool
 	Observe func(nw *netrun.Network, p int) map[string]string
 	KeepNet bool
 
@@ -116,6 +121,12 @@ func NewSys(mk func() *netrun.Network) *Sys {
 	return s
 }
 
+// ObserveNode builds the local-state record of node p of a live network (hist = the events applied to p).
+func (s *Sys) ObserveNode(nw *netrun.Network, p int, hist []Event) *LState { return s.observe(nw, p, hist) }
+
+// ApplyEvent applies one event to a live network.
+func (s *Sys) ApplyEvent(nw *netrun.Network, e Event) netrun.StepResult { return s.apply(nw, e) }
+
 func (s *Sys) observe(nw *netrun.Network, p int, hist []Event) *LState {
 	n := nw.Nodes[p]
 	st := &LState{Node: p, Hist: append([]Event{}, hist...), trans: map[string]int{}}
@@ -132,8 +143,11 @@ func (s *Sys) observe(nw *netrun.Network, p int, hist []Event) *LState {
 	s.mu.Lock()
 	for _, m := range n.Emitted {
 		id := msgID(m)
-		if _, ok := s.Msgs[id]; !ok {
-			s.Msgs[id] = &MsgInfo{ID: id, Sender: m.Sender, Seq: m.Seq, Type: m.Type, Bytes: m.Bytes, Bcast: m.Broadcast, ToNil: m.ToNil, To: m.To, ToOld: m.ToOld, ToBoth: m.ToBoth}
+		if s.RefIDs {
+			id = fmt.Sprintf("%d:%s:#%d", m.Sender, m.Type, m.Seq)
+		}
+		if _, ok := s.Msgs[id]; !ok || s.RefIDs {
+			s.Msgs[id] = &MsgInfo{ID: id, Sender: m.Sender, Seq: m.Seq, Type: m.Type, Bytes: m.Bytes, Bcast: m.Broadcast, ToNil: m.ToNil, To: m.To, ToOld: m.ToOld, ToBoth: m.ToBoth, Unresolved: m.Unresolved, RawToLen: m.RawToLen, Raw: m.Raw}
 		}
 		st.Emitted = append(st.Emitted, id)
 	}
@@ -187,7 +201,16 @@ func (s *Sys) apply(nw *netrun.Network, e Event) netrun.StepResult {
 		if e.Kind == 'F' {
 			b = !b
 		}
-		return nw.DeliverRaw(e.Node, m.Bytes, nw.Nodes[m.Sender].ID, b, m.ID)
+		bz := m.Bytes
+		if s.RefIDs {
+			// values are not reproducible between replays: take the bytes this very network produced
+			em := nw.Nodes[m.Sender].Emitted
+			if m.Seq >= len(em) || em[m.Seq].Type != m.Type {
+				panic(fmt.Sprintf("replay divergence: message %s does not exist in this run", e.Msg))
+			}
+			bz = em[m.Seq].Bytes
+		}
+		return nw.DeliverRaw(e.Node, bz, nw.Nodes[m.Sender].ID, b, m.ID)
 	}
 }
 
@@ -463,4 +486,35 @@ func (s *Sys) JointReplay(trace []Event) (string, *netrun.Network) {
 		}
 	}
 	return "", nw
+}
+
+// TransLookup returns the table entry for (local state id of e.Node, e) if it has been computed.
+func (s *Sys) TransLookup(from int, e Event) (int, bool) {
+	to, ok := s.Tabs[e.Node][from].trans[e.String()]
+	return to, ok
+}
+
+// ProbeFlip computes (without entering it into the tables) the state reached from l by delivering
+// message id with the broadcast flag flipped.
+func (s *Sys) ProbeFlip(l *LState, id string) *LState {
+	return s.compute(l, Event{'F', l.Node, id})
+}
+
+// Msg returns the message record for an id (safe for concurrent use).
+func (s *Sys) Msg(id string) *MsgInfo {
+	s.mu.Lock()
+	defer s.mu.Unlock()
+	return s.Msgs[id]
+}
+
+// MsgIDs lists all known message ids.
+func (s *Sys) MsgIDs() []string {
+	s.mu.Lock()
+	defer s.mu.Unlock()
+	var out []string
+	for k := range s.Msgs {
+		out = append(out, k)
+	}
+	sort.Strings(out)
+	return out
 }
